@@ -396,11 +396,23 @@ def check_toc(mc, md):
     for uu, (path, ep) in objs.items():
         name, ver = from_ep_name(ep)
         emb = mc.metador.schemas[schemas.PluginRef(name=name, version=ver)]
-        try:
-            jsonschema.validate(json.loads(nodes[path][()].decode("utf-8")), emb)
-        except jsonschema.ValidationError as e:
-            return ("stored object does not validate against the embedded schema", path, str(e)[:200])
+        raw_obj = nodes[path][()]
+        key = (json.dumps(emb, sort_keys=True), bytes(raw_obj))
+        if key in _VALID:  # (validator construction checks the schema against its metaschema: ~0.25 s)
+            continue
+        vkey = key[0]
+        if vkey not in _VALIDATORS:
+            cls_ = jsonschema.validators.validator_for(emb)
+            cls_.check_schema(emb)
+            _VALIDATORS[vkey] = cls_(emb)
+        err = next(iter(_VALIDATORS[vkey].iter_errors(json.loads(raw_obj.decode("utf-8")))), None)
+        if err is not None:
+            return ("stored object does not validate against the embedded schema", path, str(err)[:200])
+        _VALID.add(key)
     return None
+
+
+_VALIDATORS, _VALID = {}, set()
 
 
 def check_all(mc, md):
